@@ -25,7 +25,7 @@ ASSUMPTIONS = [
 ]
 TECHNIQUE = "reference-model + intrinsic runtime monitors (count/base identity, bounds, sums)"
 DESIGN_REF = "DESIGN.md 4 C03"
-WEIGHTS = ["none", "frac", "zeros"]
+WEIGHTS = ["none", "frac", "zeros", "float"]
 INS = ["none", "sum", "diff"]
 REQUIRED_REACH = [
     "prop_vs_oracle", "percent_is_100x", "bounded", "nan_iff_zero_base", "sum_to_one",
@@ -61,6 +61,8 @@ def make_case(unit):
     w = g.weights(N, wmode)
     if g.chance(0.05) and w is not None:
         w = w * 0.0  # all-zero weighted table with a positive unweighted one
+    if wmode == "float" and g.chance(0.5):
+        cases.add_total_subtotals(facets, transforms)
     spec = sim.CubeSpec(facets, w, ("mean",) if "numarr" in template else ())
     return {"template": template, "spec": sim.spec_to_dict(spec), "transforms": transforms,
             "ins": ins, "hides": hides}
@@ -186,7 +188,10 @@ def _slice(res, L, t, part, interior):
             res.classes.append("zero_base")
         # bounded for non-difference cells
         nb = ~diffcell & ~np.isnan(g)
-        inb = bool(np.all((g[nb] >= 0) & (g[nb] <= 1)))
+        # exact for dyadic weights; one unit in the last place is granted to quotients of
+        # sums of weights that are not exactly representable
+        ub = 1 + (1e-12 if V.inexact else 0.0)
+        inb = bool(np.all((g[nb] >= 0) & (g[nb] <= ub)))
         res.check("bounded", inb, "slice/%s_proportions/bounds" % name, {"got": g.tolist()})
         if np.any((g[nb] > 0) & (g[nb] < 1)):
             interior[0] = True
@@ -336,7 +341,8 @@ def _strand(res, L, part, interior):
     if g.shape != exp.shape:
         return
     nb = ~isdiff & ~np.isnan(g)
-    res.check("bounded", bool(np.all((g[nb] >= 0) & (g[nb] <= 1))),
+    ub = 1 + (0.0 if cases.weights_exact(L.spec) else 1e-12)
+    res.check("bounded", bool(np.all((g[nb] >= 0) & (g[nb] <= ub))),
               "strand/table_proportions/bounds", {"got": g.tolist()})
     if np.any((g[nb] > 0) & (g[nb] < 1)):
         interior[0] = True
